@@ -710,6 +710,13 @@ impl SvgElement {
             }
         }
         if let Some(bb) = bbox {
+            // (the element's own transform moves it: it is placed where that transform -
+            // one which can be undone - takes it onto the box)
+            let bb = self
+                .get_attr("transform")
+                .and_then(|transform| transform.parse::<TransformAttr>().ok())
+                .and_then(|transform| transform.unapply(&bb))
+                .unwrap_or(bb);
             self.position_from_bbox(&bb, !is_surround);
         }
         self.add_class(&format!("d-{contain_str}"));
